@@ -162,12 +162,13 @@ def ext(work, tier, seed):
     for k in ("lines", "distinct", "distinct_nontrivial"):
         stats[k] += stats2[k]
     stats["classes"].update(stats2["classes"])
-    tr3, stats3 = common.vh_gen(work, vh, "ext2", seed, tier)
-    viol3, tstates3, n3 = validate(work, "Trace_Ext", tr3, stats3, procs=6)
-    viol, tstates, n = viol + viol3, tstates + tstates3, n + n3
-    for k in ("lines", "distinct", "distinct_nontrivial"):
-        stats[k] += stats3[k]
-    stats["classes"].update(stats3["classes"])
+    for fam in ("ext2", "ztpc"):
+        tr3, stats3 = common.vh_gen(work, vh, fam, seed, tier)
+        viol3, tstates3, n3 = validate(work, "Trace_Ext", tr3, stats3, procs=6)
+        viol, tstates, n = viol + viol3, tstates + tstates3, n + n3
+        for k in ("lines", "distinct", "distinct_nontrivial"):
+            stats[k] += stats3[k]
+        stats["classes"].update(stats3["classes"])
     for desc, _ in viol[:20]:
         common.log("EXTENDED-MISMATCH " + desc[:500])
     cov = dict(states=tstates, transitions=tstates, traces_validated_against_impl=n, evaluations=stats["lines"], distinct=stats["distinct"],
@@ -178,7 +179,9 @@ def ext(work, tier, seed):
                     "instances of the relevant options; results compared with the operators of spec/Extract.tla; "
                     "ztpv4/ztpv6 ParseVendorData on vendor strings drawn from the grammar of their case tables (spec/Ztp.tla); "
                     "every typed accessor of the DHCPv6 option containers (message, relay, IA, PD, address, prefix, 4RD), the container "
-                    "operations, the 19 modifiers and NewMessage/NewSolicit/advertise/request/reply with caller modifiers (spec/Dhcp6Mods.tla)")
+                    "operations, the 19 modifiers and NewMessage/NewSolicit/advertise/request/reply with caller modifiers (spec/Dhcp6Mods.tla); "
+                    "ztpv4.ParseCircuitID / ztpv6.ParseRemoteID on interface names drawn from the grammar of their regular expressions, "
+                    "judged by a backtracking matcher over the same expressions as token lists (spec/ZtpCircuit.tla)")
     common.write_evidence("EXT", tier, seed, cov, 0, 0, ["extended conformance: informational, not part of any property's verdict"])
     common.log("EXT lines=%d mismatches=%d" % (n, len(viol)))
     return 0
